@@ -54,6 +54,7 @@ def shards(tier, seed):
     out.append(dict(name="sweep/mono", kind="sweep_mono", weight=3000))
     out.append(dict(name="sweep/di", kind="sweep_di", weight=6000))
     out.append(dict(name="variants", kind="variants", weight=5000))
+    out.append(dict(name="seeds_and_ends", kind="seeds_and_ends", weight=1500))
     return out
 
 
@@ -467,9 +468,78 @@ def run_variants(rec, tier, seed):
     rec.sample(dict(kind="variants", dtypes=[str(d) for d in dts], lengths=lens, verbose=[False, True], n=[1, 2, 5]))
 
 
+def run_seeds_and_ends(rec, tier, seed):
+    """Integer seeds of every magnitude and sign (negative, beyond 2^31, beyond 2^32) are seeds: two identical calls agree and row i equals
+    the single-example call with seed + i.  Regions given from the right (negative start and / or end) denote the same region as their
+    non-negative spelling."""
+    from tangermeme import ersatz as E
+    seeds = [0, 7, -1, -5, -(2 ** 31), 2 ** 31 - 1, 2 ** 31, 2 ** 31 + 5, 2 ** 32 - 1, 2 ** 32, 2 ** 40 + 3]
+    for L in (6, 9, 17, 40, 300):
+        A = 4
+        B = 3
+        codes = numpy.stack([_longseq(L, A, k + seed % 3) for k in range(B)])
+        X = ohe(codes, A)
+        Xc = X.clone()
+        for sd in seeds:
+            for fn, name in ((E.dinucleotide_shuffle, "dinucleotide"), (E.shuffle, "shuffle")):
+                case = dict(fn=name, A=A, L=L, n=2, seed=sd, generator="_longseq/seeds")
+                st, a = call(fn, X, n=2, random_state=sd)
+                st2, b = call(fn, X, n=2, random_state=sd)
+                rec.case(1, 1)
+                if st != "ok" or st2 != "ok":
+                    if st != "ok" and st2 != "ok" and "identical" in str(a):
+                        rec.count("refused_identical")
+                        continue
+                    if st != "ok" and st2 != "ok" and "Seed must be" in str(a):
+                        rec.count("refused_seed")           # numpy's generator refuses seeds outside [0, 2^32) loudly
+                        continue
+                    rec.violation(name + ":raises:seed", case, observed=a if st != "ok" else b)
+                    continue
+                if not torch.equal(a, b):
+                    rec.violation(name + ":not_deterministic:seed_magnitude", case)
+                    continue
+                g, ok = decode(a)
+                if not ok or not (numpy.sort(g, axis=2) == numpy.sort(codes[:, None], axis=2)).all():
+                    rec.violation(name + ":composition_changed", case)
+                    continue
+                if name == "dinucleotide":
+                    for b_ in range(1, B):
+                        st3, c = call(fn, X[b_:b_ + 1], n=2, random_state=sd + b_)
+                        if st3 != "ok" or not torch.equal(c[0], a[b_]):
+                            rec.violation("dinucleotide:row_depends_on_batch", dict(case, row=b_))
+                            break
+                rec.count("traces_validated_against_impl")
+        # regions spelled from the right
+        if L >= 9:
+            for (s, e) in ((2, L - 1), (1, L), (3, L - 3)):
+                st0, ref = call(E.dinucleotide_shuffle, X, start=s, end=e, n=2, random_state=4)
+                for (s2, e2) in ((s - L, e), (s - L, e - L if e < L else e), (s, e - L if e < L else e)):
+                    if (s2, e2) == (s, e):
+                        continue
+                    case = dict(fn="dinucleotide_shuffle", A=A, L=L, start=s2, end=e2, same_region_as=[s, e], n=2, seed=4, generator="_longseq/seeds")
+                    st1, got = call(E.dinucleotide_shuffle, X, start=s2, end=e2, n=2, random_state=4)
+                    rec.case(1, 1)
+                    if st1 != "ok":
+                        rec.count("refused_region_from_the_right")          # a loud refusal is not a wrong shuffle
+                        continue
+                    g, ok = decode(got)
+                    if not ok:
+                        rec.violation("dinucleotide:not_one_hot", case)
+                    elif not (g[:, :, :s] == codes[:, None, :s]).all() or not (g[:, :, e:] == codes[:, None, e:]).all():
+                        rec.violation("dinucleotide:flank_changed", case)
+                    elif st0 == "ok" and not torch.equal(got, ref):
+                        rec.violation("dinucleotide:region_from_the_right_differs", case)
+        if not torch.equal(X, Xc):
+            rec.violation("dinucleotide:input_modified", dict(fn="seeds_and_ends", L=L))
+    rec.sample(dict(kind="seeds_and_ends", seeds=[str(x) for x in seeds], lengths=[6, 9, 17, 40, 300]))
+
+
 def run_shard(sh, tier, seed):
     rec = Recorder(PID, sh["name"])
     k = sh["kind"]
+    if k == "seeds_and_ends":
+        run_seeds_and_ends(rec, tier, seed)
+        return rec.result()
     if k == "variants":
         run_variants(rec, tier, seed)
         return rec.result()
@@ -492,6 +562,8 @@ def replay(v):
         codes = tuple("ACGT".index(ch) for ch in c["seq"])
         di_outcomes(E, codes, c["A"], c.get("n_shuffles", 1), rec, dict(fn=c["fn"], A=c["A"], seq=c["seq"], n_shuffles=c.get("n_shuffles", 1)))
         run_di(rec, dict(A=c["A"], L=len(codes), part=0, parts=1), "quick", 0) if len(codes) <= 4 else None
+    elif c.get("generator") == "_longseq/seeds":
+        run_seeds_and_ends(rec, "quick", 0)
     elif c.get("generator") == "_longseq/variants":
         run_variants(rec, "quick", c.get("seed", 2) - (2 if c["fn"] == "dinucleotide_shuffle" else 1))
     elif c.get("generator") == "_longseq" and c["fn"] == "dinucleotide_shuffle":
